@@ -119,6 +119,8 @@ def module_value(fi, e):
 def const_strings(fi, e):
     """List of strings if e is (a module-level name for) a tuple/list of string literals, else None."""
     v = module_value(fi, e) if isinstance(e, ast.Name) else e
+    if isinstance(e, ast.Attribute) and isinstance(e.value, ast.Name) and e.value.id in ('self', 'cls') and fi.cls is not None:
+        v = fi.cls.attrs.get(e.attr)
     if isinstance(v, (ast.Tuple, ast.List)) and v.elts and all(lib.str_const(x) is not None for x in v.elts):
         return [x.value for x in v.elts]
     return None
@@ -134,11 +136,15 @@ def compiled_pattern(idx, fi, e, env=None):
     return None
 
 
-def extract_pipeline(idx, fi):
-    """Ordered list of Steps of clean_input, the working variable's initial expression, and the input parameter."""
+def extract_pipeline(idx, fi, direct=False, depth=0):
+    """Ordered list of Steps of clean_input, the working variable's initial expression, and the input parameter.
+    With direct=True the function is a helper whose (last) parameter is the working string itself."""
+    if depth > 3:
+        raise AnalysisError('helper nesting too deep in the cleaning pipeline')
+    fi = X.unrolled(fi)
     fn = fi.node
-    param = fi.params[1]
-    state = {'w': None, 'init': None, 'returned': False}
+    param = fi.params[-1] if direct else fi.params[1]
+    state = {'w': param if direct else None, 'init': ast.Name(id=param, ctx=ast.Load()) if direct else None, 'returned': False}
     steps = []
 
     def touches(node):
@@ -165,6 +171,17 @@ def extract_pipeline(idx, fi):
                 if p is None or r is None:
                     raise AnalysisError('re.sub with a non-literal pattern/replacement: %s' % short(e))
                 return base + [Step(guards, 'sub', (p, r), e)]
+            if isinstance(e.func, ast.Lambda) and len(e.args) == 1 and not e.keywords and len(e.func.args.args) == 1 \
+                    and not e.func.args.defaults:
+                return transforms_of(nf.subst(e.func.body, {e.func.args.args[0].arg: e.args[0]}), guards)
+            if isinstance(e.func, ast.Attribute) and isinstance(e.func.value, ast.Name) and e.func.value.id in ('self', 'cls') \
+                    and len(e.args) == 1 and not e.keywords and touches(e.args[0]):
+                targets, how = idx.resolve_call(fi.original, e)
+                fts = [t for t in targets if hasattr(t, 'node')]
+                if len(fts) == 1:
+                    base = transforms_of(e.args[0], guards)
+                    sub_steps, _, _ = extract_pipeline(idx, fts[0], direct=True, depth=depth + 1)
+                    return base + [Step(list(guards) + list(st.guards), st.kind, st.args, e) for st in sub_steps]
             if isinstance(e.func, ast.Attribute) and e.func.attr == 'sub' and len(e.args) == 2 and not e.keywords \
                     and compiled_pattern(idx, fi, e.func.value, lib.local_env(fn)) is not None:
                 base = transforms_of(e.args[1], guards)
@@ -217,7 +234,12 @@ def extract_pipeline(idx, fi):
                     if X.mentions(s.value, param):
                         if guards:
                             raise AnalysisError('working string initialised under a condition')
-                        state['w'], state['init'] = t, s.value
+                        state['w'] = param
+                        tr = transforms_of(s.value, guards)
+                        if tr is None:
+                            raise AnalysisError('initial value `%s` does not derive from the input' % short(s.value))
+                        steps.extend(tr)
+                        state['w'], state['init'] = t, ast.Name(id=param, ctx=ast.Load())
                     continue
                 if t == state['w']:
                     tr = transforms_of(s.value, guards)
@@ -928,8 +950,16 @@ def d5_call(ctx, idx):
                 r.violation('StringGrader.__call__: the submission is passed on unchanged',
                             'ItemGrader.__call__ receives `%s` as the submission' % short(e.args[1]), lib.loc(fi, leaf.stmt))
             first = e.args[0]
-            got = "''" if (isinstance(first, ast.Constant) and first.value == '') else (
-                'expect' if X.is_name(first, 'expect') else short(first))
+            while isinstance(first, ast.IfExp):          # conditional expression in the argument: resolve it in this case
+                first = first.body if guards.compile(nf.canon(first.test))(w) else first.orelse
+            if isinstance(first, ast.Constant) and first.value == '':
+                got = "''"
+            elif X.is_name(first, 'expect') or (isinstance(first, ast.Constant) and first.value is None and w['expect_none']):
+                got = 'expect'
+            elif isinstance(first, ast.Constant):
+                got = repr(first.value)
+            else:
+                raise AnalysisError('first argument of ItemGrader.__call__ not recognised: %s' % short(first))
             want = "''" if (w['expect_none'] and (w['accept_any'] or w['accept_nonempty'])) else 'expect'
             stats[g1 if w['expect_none'] else g2].append((w, want, got, leaf))
         for g, cases in stats.items():
